@@ -150,11 +150,11 @@ theorem c04_failed_add_before_pool (s : Svc) (p cid : String) (v : PodGet) (pick
     | error => rfl
   · cases v <;> simp [h]
 
-/-- failing after the pool served it (the request context ended): the addresses it took are free again
-    and nothing else changed -/
-theorem c04_failed_add_hands_back (s : Svc) (hI : Inv s) (p : String) (pick : List Ent)
-    (hfresh : ∀ e ∈ pick, e.owner = none) : (addFailBody s p pick true).1 = s :=
-  addFail_good_noop hI hfresh
+/-- failing after the pool served it (the request context ended): the addresses it took are free again,
+    an address the pod held before the request is still the pod's, and nothing else changed -/
+theorem c04_failed_add_hands_back (s : Svc) (hI : Inv s) (p : String) (pick : List Ent) :
+    (addFailBody s p pick true).1 = s :=
+  addFail_good_noop hI
 
 /-- no request for `p` changes what another pod `q` has: its record, and the binding of every address the
     record names -/
